@@ -46,4 +46,6 @@ extern struct op_entry ops_local[];
 void local_reset(void);
 extern struct op_entry ops_dump[];
 void dump_reset(void);
+extern struct op_entry ops_tmpltext[];
+void tmpltext_reset(void);
 #endif
